@@ -5,7 +5,7 @@ import (
 )
 
 // Mask is a set of DFA states.
-type Mask uint32
+type Mask uint64
 
 func (m Mask) Has(s int) bool { return m&(1<<uint(s)) != 0 }
 
